@@ -226,8 +226,10 @@ void Alarm::onTimeExpired() {
 
   RECORD_SCOPE();
   ++cb_level_;
-  if (cb_)
-    cb_();
+  if (cb_) {
+    Callback cb = cb_;  //! 回调中可能调用 cleanup()、setCallback()，它们会替换 cb_，不能直接在 cb_ 上执行
+    cb();
+  }
   --cb_level_;
 }
 
